@@ -3,6 +3,7 @@ package xtype
 import (
 	"fmt"
 	"go/types"
+	"strings"
 
 	"github.com/dave/jennifer/jen"
 )
@@ -119,7 +120,10 @@ func toCodeStruct(t *types.Struct) *jen.Statement {
 		tag := t.Tag(i)
 
 		fieldType := toCode(f.Type())
-		if tag != "" {
+		if strings.Contains(tag, "`") {
+			// cannot be written as raw string
+			fieldType = fieldType.Add(jen.Lit(tag))
+		} else if tag != "" {
 			fieldType = fieldType.Add(jen.Id("`" + tag + "`"))
 		}
 
